@@ -115,8 +115,37 @@ def uf_jobs(tier):
     return J
 
 
+def msg_jobs(tier):
+    """C++ Message::Unflatten on shape-directed hostile inputs (same enumeration as for MiniMessage): truncations, trailing garbage, each framing word set to small values / boundary constants"""
+    import c01
+    J = []
+    S = wire.std_shapes(tier)
+    shapes = ['i32x2', 'str2', 'msg1'] if tier == 'quick' else list(S)
+    for sname in shapes:
+        m = S[sname]; toks = wire.tokens(m); full = wire.size(toks); W = wire.nwords(toks); labels = wire.word_labels(toks)
+        d = c01.depth(m) + 1
+        def mk(tag, gen, fam):
+            return Job('msg_parse %s %s' % (sname, tag), 'B', 'harness/cpp/msg_wire.cpp', 'harness_msg_parse', gen_c=gen, unwind=24, loop_rules={'harness_msg_parse': 170}, family='msg_parse/' + fam,
+                       timeout=(150 if tier == 'quick' else 900), mem_gb=8, maxalloc=None, **dict(c01.COMMON, mode=MSG_MODE))
+        J.append(mk('garbage+3', wire.gen_c(m, garbage=3, concrete_strings=True, tables=True), 'garbage'))
+        truncs = range(0, full) if tier != 'quick' else sorted(set(list(range(0, full, 3)) + [full - 1, full - 2, 11, 12, 13]))
+        for t in truncs:
+            if 0 <= t < full: J.append(mk('trunc=%d' % t, wire.gen_c(m, trunc=t, concrete_strings=True), 'trunc'))
+        for k in range(W):
+            for spec in wire.hostile_splits(toks, k, ranged=False, dense=(tier != 'quick')):
+                if spec[0] == 'const' and spec[1] == wire.word_values(toks)[k]: continue
+                # quick tier: a hostile type code turns the (symbolic) payload of a fixed-size field into item counts/lengths, and a data length that is not a multiple of
+                # the item size takes an error path through the field's destruction; both exceed 200 s (measured) and are thorough-only
+                if tier == 'quick' and (labels[k].startswith('typeCode') or (labels[k].startswith('dataLen') and sname == 'i32x2' and spec[1] % 4 != 0)): continue
+                J.append(mk('word%d[%s]=%s' % (k, labels[k], spec[1]), wire.gen_c(m, hostile=(k, spec), concrete_strings=True), 'hostile/' + labels[k].split('(')[0]))
+    return J
+
+
+MSG_MODE = 'func'
+
+
 def run(tier, seed):
-    jobs = um_jobs(tier) + mm_jobs(tier) + uf_jobs(tier)
+    jobs = um_jobs(tier) + mm_jobs(tier) + uf_jobs(tier) + msg_jobs(tier)
     meta = {
         'rule': 'one CBMC job per (parser entry point, exact buffer length N); inside a job every buffer byte, field name byte, index and type-code argument is a solver variable; '
                 'a job is non-trivial iff its end-of-harness witness assertion is reachable (reported FAILED by CBMC)',
